@@ -52,9 +52,6 @@ pub mod libc {
     #[allow(non_camel_case_types)] pub type ino64_t = u64;
     #[allow(non_camel_case_types)] pub type c_ushort = u16;
     #[allow(non_camel_case_types)] pub type c_uchar = u8;
-    // units ovl_* (overlay): file types and errnos of x86_64-linux-gnu
-    pub const S_IFCHR: u32 = 0o020000; pub const S_IFBLK: u32 = 0o060000; pub const S_IFIFO: u32 = 0o010000; pub const S_IFSOCK: u32 = 0o140000;
-    pub const ENAMETOOLONG: i32 = 36; pub const ENOTEMPTY: i32 = 39; pub const ENODATA: i32 = 61;
 }
 
 // slices are at most isize::MAX bytes long (language guarantee; invoked explicitly where needed)
